@@ -294,11 +294,9 @@ func (gs GenesisState) ValidateOperatorUSDValues(operators map[string]struct{}, 
 		}
 		avsUSDValue, ok := avsUSDValues[avsAddress]
 		if !ok {
-			return errorsmod.Wrapf(
-				ErrInvalidGenesisData,
-				"the parsed AVS address should be in the avsUSDValues map, AVS: %s, avsUSDValues: %+v",
-				avsAddress, avsUSDValues,
-			)
+			// the value of an AVS is first recorded at the end of its epoch; an operator
+			// that opted in since then has a zero value (set at opt-in) until that moment
+			avsUSDValue = DecValueField{Amount: sdk.ZeroDec()}
 		}
 
 		if operatorUSDValue.OptedUSDValue.TotalUSDValue.GT(avsUSDValue.Amount) {
